@@ -40,10 +40,10 @@ VARIANTS = [
     ("C01", "silent", OPS, "    return jnp.sum(accu)\n", "    total = jnp.sum(accu)\n    return total\n", 0),
     ("C01", "silent", OPS, "ux(x) * dux_dx(x) + uy(x) * dux_dy(x),", "dux_dy(x) * uy(x) + dux_dx(x) * ux(x),", 0),
     # ---- C02
-    ("C02", "fire", DYN, 'u(t, x, params) * du_dx(t, x) - params.eq_params["nu"] * d2u_dx2(t, x)', 'u(t, x, params) * du_dx(t, x) + params.eq_params["nu"] * d2u_dx2(t, x)', 0),
+    ("C02", "fire", DYN, '                - params.eq_params["nu"] * d2u_dx2(t, x)\n            )', '                + params.eq_params["nu"] * d2u_dx2(t, x)\n            )', 0),
     ("C02", "fire", DYN, "return -du_dt + self.Tmax * (-order_1 + order_2)", "return self.Tmax * (-du_dt - order_1 + order_2)", 0),
     ("C02", "fire", DYN, '+ 1 / params_dict.eq_params["rho"] * jac_p[0, 1]', '+ 1 / params_dict.eq_params["rho"] * jac_p[0, 0]', 0),
-    ("C02", "silent", DYN, 'u(t, x, params) * du_dx(t, x) - params.eq_params["nu"] * d2u_dx2(t, x)', '-params.eq_params["nu"] * d2u_dx2(t, x) + du_dx(t, x) * u(t, x, params)', 0),
+    ("C02", "silent", DYN, '                u(t, x, params)[u.slice_solution] * du_dx(t, x)\n                - params.eq_params["nu"] * d2u_dx2(t, x)\n', '                -params.eq_params["nu"] * d2u_dx2(t, x)\n                + du_dx(t, x) * u(t, x, params)[u.slice_solution]\n', 0),
     ("C02", "fire", DYN, "lambda x: self.drift(t, _get_grid(x), params.eq_params)[None, ..., 0:1]", "lambda x: self.drift(t, x_grid, params.eq_params)[None, ..., 0:1]", 0),
     # ---- C03
     ("C03", "silent", LU, "mse_dyn_loss = jnp.mean(jnp.sum(loss_weight * residuals**2, axis=-1))", "_s = jnp.sum(loss_weight * residuals**2, axis=-1)\n        mse_dyn_loss = jnp.sum(_s) / _s.shape[0]", 0),
@@ -115,7 +115,7 @@ VARIANTS = [
     ("C11", "fire", "jinns/utils/_utils.py", 'indexing="ij"', 'indexing="xy"', 0),
     ("C12", "fire", PRM, "k: (0 if k in eq_params_batch_dict.keys() else None)", "k: (None if k in eq_params_batch_dict.keys() else 0)", 0),
     ("C12", "fire", DLA, "eq_params_[k] = eq_params_heterogeneity[k](x, u, params)", "eq_params_[k] = eq_params_heterogeneity[k](u, x, params)", 0),
-    ("C13", "fire", LU, "                lambda w, l: w * l, res_dict_for_u, loss_weights_for_u\n            )\n            return res_dict_ponderated\n\n        # Note in the case", "                lambda w, l: w + l, res_dict_for_u, loss_weights_for_u\n            )\n            return res_dict_ponderated\n\n        # Note in the case", 0),
+    ("C13", "fire", LU, "                lambda w, l: jnp.mean(w * l), res_dict_for_u, loss_weights_for_u\n            )\n            return res_dict_ponderated\n\n        # Note in the case", "                lambda w, l: jnp.mean(w + l), res_dict_for_u, loss_weights_for_u\n            )\n            return res_dict_ponderated\n\n        # Note in the case", 0),
     ("C16", "fire", RAR, '(data.rar_parameters["update_every"] - 1) == data.rar_iter_from_last_sampling,', '(data.rar_parameters["update_every"]) == data.rar_iter_from_last_sampling,', 0),
     ("C16", "silent", RAR, 'data.rar_parameters["start_iter"] <= i,', 'i >= data.rar_parameters["start_iter"],', 0),
     ("C17", "fire", RAR, "                (mse_on_s.shape[0] - selected_sample_size,),", "                (0,),", 0),
